@@ -26,6 +26,8 @@
 (*   topk_error_not_inherited    evicting add() records error 0             *)
 (*   topk_evict_resets_count     evicting add() starts the count at `count` *)
 (*   topk_evict_max              evicting add() replaces the maximum        *)
+(*   topk_evict_min_guaranteed   evicting add() replaces the counter with   *)
+(*                               the least count - error (needs 9 adds)     *)
 (*   res_capacity_off_by_one     reservoir appends while len <= size        *)
 (*   res_replace_appends         replacement appends instead of overwriting *)
 (*   merkle_leaf_range_self      leaf-level divergence reports a's range only *)
@@ -114,6 +116,10 @@ FirstMin(ctr) == CHOOSE i \in 1..Len(ctr) :
 FirstMax(ctr) == CHOOSE i \in 1..Len(ctr) :
                     /\ \A j \in 1..Len(ctr) : ctr[j][2] <= ctr[i][2]
                     /\ \A j \in 1..(i - 1) : ctr[j][2] < ctr[i][2]
+\* first minimum of the guaranteed count (count - error)
+FirstMinG(ctr) == CHOOSE i \in 1..Len(ctr) :
+                    /\ \A j \in 1..Len(ctr) : ctr[j][2] - ctr[j][3] >= ctr[i][2] - ctr[i][3]
+                    /\ \A j \in 1..(i - 1) : ctr[j][2] - ctr[j][3] > ctr[i][2] - ctr[i][3]
 
 TopKAdd(s, x, c, k) ==
     IF c = 0 THEN s
@@ -122,7 +128,9 @@ TopKAdd(s, x, c, k) ==
          IN [ctr |-> [s.ctr EXCEPT ![i] = <<x, @[2] + c, @[3]>>], total |-> s.total + c]
     ELSE IF Len(s.ctr) < k
     THEN [ctr |-> Append(s.ctr, <<x, c, 0>>), total |-> s.total + c]
-    ELSE LET m == IF D("topk_evict_max") THEN FirstMax(s.ctr) ELSE FirstMin(s.ctr)
+    ELSE LET m == IF D("topk_evict_max") THEN FirstMax(s.ctr)
+                  ELSE IF D("topk_evict_min_guaranteed") THEN FirstMinG(s.ctr)
+                  ELSE FirstMin(s.ctr)
              mc == s.ctr[m][2]
          IN [ctr |-> Append(RemoveAt(s.ctr, m),
                             <<x, IF D("topk_evict_resets_count") THEN c ELSE mc + c,
